@@ -3,7 +3,8 @@
    independently of the Recv code and of its models: each is a relation
    [frame ... s r rest] "the stream s starts with a frame whose payload is r and which is
    followed by rest".  Nothing here is executable or extracted; C12's soundness theorems
-   say that a record returned by the model of Recv satisfies the relation. *)
+   say that a record returned by the model of Recv satisfies the relation.
+   The grammar of the header framings is in HdrSpec.v. *)
 From Coq Require Import List NArith ZArith Bool Lia.
 From JV Require Import Bytes.
 Import ListNotations.
